@@ -2013,10 +2013,23 @@ impl<T: PPGEvaluatorStrategy> PPGEvaluator<T> {
                             "Should have had history for it, if it was validated?!".to_string(),
                         )
                     })?;
-                let my_historical_input = history.get(&format!(
-                    "{}!!!{}",
-                    &jobs[upstream_idx].job_id, &jobs[node_idx].job_id
-                ));
+                let my_historical_input = history
+                    .get(&format!(
+                        "{}!!!{}",
+                        &jobs[upstream_idx].job_id, &jobs[node_idx].job_id
+                    ))
+                    .or_else(|| {
+                        // same as in edge_invalidated: the upstream might be a multi output
+                        // job that was renamed since we last consumed it.
+                        Self::try_finding_renamed_multi_output_job(
+                            &jobs[upstream_idx].job_id,
+                            &jobs[node_idx].job_id,
+                            history,
+                        )
+                        .and_then(|old_name| {
+                            history.get(&format!("{}!!!{}", old_name, &jobs[node_idx].job_id))
+                        })
+                    });
                 match my_historical_input {
                     None => {
                         //no history, so certainly invalidated
